@@ -258,7 +258,7 @@ def mk_uninitialised(depth):
   def make(reach):
     from vf import osckit
     from vf.osckit import o, Message
-    from aiocoap.numbers.codes import GET
+    from aiocoap.numbers.codes import GET, CONTENT
     osckit.oscstubs.ORACLE.reset()
     a, b0 = osckit.pair()
     ECHO = b"\x11\x22\x33\x44\x55\x66\x77\x88"
@@ -272,13 +272,23 @@ def mk_uninitialised(depth):
         CAT.append((sn, echo, outer.opt.encode(), bytes(outer.payload)))
 
     def h(e1: int, e2: int, e3: int, e4: int, with_echo_recovery: bool) -> None:
-        assert 0 <= e1 < len(CAT) and 0 <= e2 < len(CAT) and 0 <= e3 < len(CAT) and 0 <= e4 < len(CAT)
+        assert 0 <= e1 <= len(CAT) and 0 <= e2 <= len(CAT) and 0 <= e3 <= len(CAT) and 0 <= e4 <= len(CAT)
         b = osckit.make_ctx(b"", b"\x01", initialized=False)
         b.sender_key, b.recipient_key, b.common_iv = b0.sender_key, b0.recipient_key, b0.common_iv
         b.echo_recovery = ECHO if with_echo_recovery else None
         initialised_at = None
         accepted = []
         for e in (e1, e2, e3, e4)[:depth]:
+            if e == len(CAT):
+                # the context is also used as a client: an own request and its ordinary response (no partial IV of its own)
+                # pass while the recipient window is still unusable -- which must not make it usable
+                a2, _ = osckit.pair()
+                outer2, rid2 = b.protect(Message(code=GET, uri_path=["y"]))
+                got2, rida = a2.unprotect(osckit.incoming(outer2))
+                resp2, _ = a2.protect(Message(code=CONTENT, payload=b"r"), rida)
+                back, _ = b.unprotect(osckit.incoming(resp2), rid2)
+                assert back.payload == b"r" and int(back.code) == 69
+                continue
             sn, echo, optbytes, payload = CAT[e]
             m = Message(code=2, payload=payload)
             m.opt.decode(optbytes)
@@ -326,7 +336,7 @@ def obligations(tier):
                                   stubs=["ideal AEAD/HKDF", "cbor stub"]))
     obs.append(Obligation("unprotect-uninitialised", mk_uninitialised(3 if q else 4), 250 if q else 1200,
                           functions=["oscore.CanUnprotect.unprotect (Echo recovery)", "ReplayWindow.initialize_from_freshlyseen"],
-                          symbolic={"arrivals": "3 (quick) / 4 indices over 6 requests (no / wrong / right Echo)", "echo_recovery configured": "bool"},
+                          symbolic={"events": "3 (quick) / 4 indices over 6 requests (no / wrong / right Echo) and an own request/response round trip of this context as client", "echo_recovery configured": "bool"},
                           stubs=["ideal AEAD/HKDF", "cbor stub"]))
     from vf.props import c13
     for n1, first in ((2, 0), (2, 3)):
